@@ -14,7 +14,7 @@ import (
 
 // C15: the cosmetic engine returns exactly the applicable, non-excepted selectors.
 
-var c15Domains = []string{"example.org", "sub.example.org", "example.com", "a.com", "b.a.com", "google.*", "example.*", "a.co.uk", "xa.com", "evil.org", "org", "com", "co.uk", "uk", "maps.example.*", "www.google.*", "b.a.*"}
+var c15Domains = []string{"example.org", "sub.example.org", "example.com", "a.com", "b.a.com", "google.*", "example.*", "a.co.uk", "xa.com", "evil.org", "org", "com", "co.uk", "uk", "maps.example.*", "www.google.*", "b.a.*", "cafe.de", "bad.*"}
 var c15Selectors = []string{".banner", "#ad", ".ad-box", "div[id^=\"ads\"]", ".sponsored", ".x"}
 var c15Hostnames = []string{
 	"example.org", "sub.example.org", "deep.sub.example.org", "xexample.org", "example.org.evil.org", "example.com", "www.example.com",
@@ -23,6 +23,8 @@ var c15Hostnames = []string{
 	"maps.example.com", "www.maps.example.co.uk", "xmaps.example.com", "maps.example.evil.org", "www.google.de", "b.a.org", "c.b.a.co.uk",
 	// Many labels: the walk over parent domains has no small bound.
 	"a.b.c.d.e.f.g.h.i.j.k.l.example.org", gen.DeepHost,
+	// Names made of hexadecimal characters only, and addresses.
+	"cafe.de", "abc.cafe.de", "bad.ee", "fe.bad.be", "1.2.3.4", "::1",
 }
 
 // c15CollidingSelectors is set per case: selectors with the same FastHash.
